@@ -6,18 +6,23 @@ PID = "C03"
 MODULE, PKG, BIN = "cesium", "./verifh/c03", "c03"
 COQ_IMPORTS = "From Synnax Require Import Common.Base Common.Telem Cesium.Domain Monitors.Mon_C03."
 CASE_TYPE = "case_t"
-COUNTS = {"quick": 1500, "thorough": 40000}
-SHARD = 250
+COUNTS = {"quick": 1000, "thorough": 15000}
+SHARD = 125
 MAXTS = 2 ** 63 - 1
 
-RULE = ("histories of 6-30 ops over up to 5 concurrently open domain writers on ONE channel of a fresh in-memory "
+RULE = ("histories of 6-30 ops (35% preceded by a prefix that commits 2-5 disjoint or adjacent domains through "
+        "short-lived writers) over up to 5 concurrently open domain writers on ONE channel of a fresh in-memory "
         "domain.DB: open(w,start,end?) / write(w,1-6 bytes) / commit(w,end) / close(w) / delete(a,b); stamps from a "
-        "14-point alphabet {0,1,5,10,12,15,20,21,25,30,40,50,MAX-1,MAX} (+-1 jitter 10%) so adjacency, zero-length "
-        "commits, preset ends and gap filling by another writer are frequent; file size cap drawn from "
-        "{default,5,10,16,40} bytes so file roll-over happens in ~half of the cases; ~75% of ops are chosen legal, the "
-        "rest are conflicting opens/commits, backwards commits, commits past a preset end, ops on closed or unknown "
-        "writers, inverted preset ends, deletes not gated by open writers (6%). Non-trivial = at least one rejected "
-        "op (validation/conflict) and at least 2 surviving domains at the end; distinct by hash.")
+        "14-point alphabet {0,1,5,10,12,15,20,21,25,30,40,50,MAX-1,MAX} (+-1 jitter 8%) so adjacency, zero-length "
+        "commits, preset ends and gap filling by another writer are frequent; a generator-side sketch of the database "
+        "steers ~78% of the choices to legal ones (open in a gap or at a domain end, commit up to the next domain "
+        "start, delete bounds at domain starts/ends/byte ends/mid points), the rest are conflicting opens/commits, "
+        "backwards and zero-length commits, commits past a preset end, inverted preset ends, ops on closed or unknown "
+        "writers, deletes not gated by the open writers (~1.5% of ops); file size cap from {default,5,10,16,40} bytes "
+        "so file roll-over happens in about half of the cases. Plus, once per run, all 9^4 quadruples of "
+        "{MinInt64,-5,0,1,5,10,11,MAX-1,MAX} through telem.TimeRange OverlapsWith/ContainsRange/BoundBy/"
+        "ContainsStamp/Valid/MakeValid against Common/Telem.v. Non-trivial = at least one rejected op "
+        "(validation/conflict) and at least 2 surviving domains at the end; distinct by hash.")
 TRUSTED = ["hook cesium/internal/domain/export_verif_c03.go (read-only copies of the index pointers, the two "
            "file-size limits, and a writer's file key)",
            "harness drives the real domain.DB/Writer/Iterator/Delete on x/io/fs MemFS with linear offset resolvers "
@@ -349,13 +354,75 @@ def tags(case, r):
     return set()
 
 
+TELEM_ALPHA = [-2 ** 63, -5, 0, 1, 5, 10, 11, MAXTS - 1, MAXTS]
+
+
+def extra(ctx):
+    """function-level differential test of Common/Telem.v against x/go/telem: OverlapsWith,
+    ContainsRange, BoundBy, ContainsStamp, Valid, MakeValid on every quadruple of a 9-value
+    alphabet that includes the int64 extremes (so the Span wrap-around is exercised)"""
+    import re
+    import vlib
+    import check
+    quads = [[a, b, c, d] for a in TELEM_ALPHA for b in TELEM_ALPHA for c in TELEM_ALPHA for d in TELEM_ALPHA]
+    case = {"id": 0, "telem": quads}
+    res = vlib.run_harness(ctx.bin, [case], procs=1).get(0)
+    bad = None
+    if not res or len(res.get("telem") or []) != len(quads):
+        bad = "harness returned no telem results"
+    else:
+        cb = lambda x: "true" if x else "false"
+        terms = []
+        for q, o in zip(quads, res["telem"]):
+            terms.append(cpair(cpair(*[cZ(x) for x in q]),
+                               cpair(cb(o[0]), cb(o[1]), cpair(cZ(o[2]), cZ(o[3])), cb(o[4]), cb(o[5]),
+                                     cpair(cZ(o[6]), cZ(o[7])))))
+        out = coq_print(PID + "_telem", COQ_IMPORTS,
+                        "Definition tc : list telem_case := %s.\nDefinition TM := Eval vm_compute in telem_mismatches tc.\nPrint TM." % clist(terms),
+                        timeout=600)
+        m = re.search(r"TM\s*=\s*(\[[^\]]*\])", out.replace("\n", " "))
+        if not m:
+            bad = "cannot evaluate telem cases: " + out[-600:]
+        elif m.group(1).strip() != "[]":
+            idx = [int(x.replace("%nat", "")) for x in m.group(1).strip()[1:-1].split(";") if x.strip()]
+            bad = "telem.TimeRange differs from Common/Telem.v on %d quadruples, first %s -> %s" % (
+                len(idx), quads[idx[0]], res["telem"][idx[0]])
+    ctx.extra_cov["telem_function_cases"] = len(quads)
+    if bad:
+        rp = check.write_replay(ctx, "V2", bad, {"telem": quads[:0]}, None, {"correspondence": "corr:C03/telem"})
+        ctx.violations.append({"kind": "V2", "what": bad, "replay": rp, "found_input": False})
+
+
 def model_dump(case, r):
     t = to_coq(case, r)
     return coq_print(PID, COQ_IMPORTS, "Eval vm_compute in model_dump (%s)." % t)[-8000:]
 
 
-READY = False
-TECHNIQUE = "Coq proof (invariant over operation lists, binary-search specification) + model/impl correspondence by vm_compute"
+READY = True
+TECHNIQUE = ("Coq proof (inductive invariant over operation lists, binary-search specification, refinement of the "
+             "fast paths to the search result) + model/impl correspondence by vm_compute")
 DESIGN_REF = "DESIGN.md §8 C03"
-LEVEL_TEXT = "TODO"
-LEVEL_NOTE = "TODO"
+LEVEL_TEXT = ("Machine-checked Coq theorems over an executable Gallina copy of cesium/internal/domain (index search / "
+              "insert with its append and prepend fast paths / update with the neighbour check, OpenWriter, Write, "
+              "commit with preset ends, file roll-over and validateCommitRange, Close, Delete with pointer split, the "
+              "iterator) and of telem.TimeRange.OverlapsWith/ContainsStamp: for every history of opens, writes, "
+              "commits, closes and deletes over any number of concurrently open writers the committed ranges stay "
+              "time-ordered, pairwise non-overlapping, non-empty and inside their files (C03_inv_reachable, "
+              "C03_no_overlap_within_files); a failed operation changes nothing (C03_fail_atomic); a writer whose "
+              "start lies inside data cannot open (C03_open_inside_fails); an overlapping or backwards commit fails "
+              "with a validation error (C03_commit_overlap_fails, C03_commit_backwards_fails); the binary search meets "
+              "its specification (C03_search_spec, C03_search_complete); everything committed is enumerated by the "
+              "iterator (C03_committed_is_readable). The model is tied to /repo on every run by driving the real "
+              "domain.DB on generated histories and comparing, after every operation, error class, iterator "
+              "enumeration with bytes read, raw index pointers, file sizes and writer Start/End/file key inside Coq; "
+              "a decidable monitor states the property on the implementation's observations and yields the replay.")
+LEVEL_NOTE = ("Trusted: Coq kernel/vm_compute; hand-written model (tied by correspondence, not translation); harness + "
+              "read-only hook export_verif_c03.go; generator. Assumes stamps in [0, 2^63-1], data files < 2^32 bytes, "
+              "fresh database without reopen/GC/descriptor-limit paths, sequential histories; Go map iteration order "
+              "in acquireWriter is an oracle argument taken from the implementation's choice. Not modelled: index "
+              "persistence (C02), garbage collection (C04), races (C09). All theorems closed under the global context. "
+              "Two defects found by this check were repaired by fix: commits (F18 backwards commit accepted on a file "
+              "switch, F19 WriterConfig.Validate returned nil); C03_upstream_*_refuted keep the witnesses. The commit "
+              "theorems about the writer's own pointer hold for histories whose deletes respect the unary control gate "
+              "(C03_own_pointer_present); C03_ungated_delete_panics_refuted shows the domain package alone panics "
+              "otherwise (not reachable through unary/cesium).")
